@@ -53,6 +53,9 @@ Fixpoint stmt_eqb (a b : stmt) {struct a} : bool :=
   | SSIf c i ss, SSIf c' i' ss' => expr_eqb c c' && Bool.eqb i i' && go ss ss'
   | SBreak e, SBreak e' => expr_eqb e e'
   | SWhile lvs ss bc, SWhile lvs' ss' bc' => list_eqb triple_eqb lvs lvs' && go ss ss' && opt_eqb bc bc'
+  | SStruct x tn es, SStruct x' tn' es' => N.eqb x x' && N.eqb tn tn' && list_eqb expr_eqb es es'
+  | SLateDecl x, SLateDecl x' => N.eqb x x'
+  | SLateAssign x e, SLateAssign x' e' => N.eqb x x' && expr_eqb e e'
   | _, _ => false
   end.
 Definition func_eqb (f g : func) : bool :=
@@ -68,7 +71,8 @@ Definition tw : world :=
                       | PIdx _ i => (v * 5 + Z.of_N i) mod 17 - 3
                       | PIsPtr _ => v mod 2
                       | PCast _ => v
-                      end).
+                      end)
+          (fun tn vs => fold_left (fun a v => (a * 37 + v) mod 65521) vs (Z.of_N tn) + 3000).
 
 Definition arg_pool : list Z := [0; 1; -1; 2; 5; -3; 100; MAX; MIN; 7].
 Definition arg_vector (k : nat) (j : nat) : list Z :=
@@ -113,17 +117,47 @@ Definition model (p : pass) (sup : list name) (f : func) : option (func * fl) :=
   | PPipeCse => option_map (fun r => (fst (fst r), snd (fst r))) (pipeline true true sup f)
   end.
 
-(* [status; wf; Passes.dead_final_operands (ccp only); escape flag; sanity runs reproduced; sanity runs NOT reproduced;
-    sanity runs on which the invariant between rounds (mode Add) fails]
-   status 0: model output = real output; 1: they differ; 2: the model gives no output *)
+(* status 0: model output = real output; 1: they differ; 2: the model gives no output *)
 Definition b2n (b : bool) : N := if b then 1%N else 0%N.
 Definition count (k : N) (l : list N) : N := N.of_nat (length (filter (N.eqb k) l)).
+(* the same without the forwarding of struct fields (the variant the theorems are proved for) *)
+Definition model_nf (p : pass) (sup : list name) (f : func) : option (func * fl) :=
+  match p with
+  | PCcp => ccp_nf f
+  | PPipe => option_map (fun r => (fst (fst r), snd (fst r))) (pipeline_gen ver_nf true false [] f)
+  | PPipeCse => option_map (fun r => (fst (fst r), snd (fst r))) (pipeline_gen ver_nf true true sup f)
+  | _ => model p sup f
+  end.
+Fixpoint has_struct (s : stmt) : bool :=
+  let fix go (ss : list stmt) : bool := match ss with [] => false | s :: r => has_struct s || go r end in
+  match s with
+  | SStruct _ _ _ => true
+  | SIf _ s1 s2 _ => go s1 || go s2
+  | SSIf _ _ ss | SWhile _ ss _ => go ss
+  | _ => false
+  end.
+Definition res_eqb (a b : option (func * fl)) : bool :=
+  match a, b with
+  | Some (f, fl1), Some (g, fl2) => func_eqb f g && Bool.eqb (fst fl1) (fst fl2) && Bool.eqb (snd fl1) (snd fl2)
+  | None, None => true
+  | _, _ => false
+  end.
+(* 1 iff forwarding of struct fields changed the result (Passes.no_struct_forwarding fails); only a function
+   that makes a struct can be affected *)
+Definition forwarded (p : pass) (sup : list name) (f : func) (r : option (func * fl)) : bool :=
+  if existsb has_struct (f_body f) then negb (res_eqb (model_nf p sup f) r) else false.
+
+(* [status; wf; Passes.dead_final_operands (ccp / pipeline); escape flag; sanity runs reproduced; sanity runs NOT
+    reproduced; sanity runs on which the invariant between rounds (mode Add) fails; struct fields forwarded]
+   The sanity runs are skipped when struct fields were forwarded: the test world is not a `struct_world`. *)
 Definition tie_case (p : pass) (sup : list name) (before after : func) : list N :=
   let wf := b2n (wf_func before) in
-  let sc := sem_cases before after in
-  match model p sup before with
-  | Some (m, f) => [(if func_eqb m after then 0 else 1)%N; wf; b2n (fst f); b2n (snd f); count 1 sc; count 2 sc; count 3 sc]
-  | None => [2%N; wf; 0%N; 0%N; count 1 sc; count 2 sc; count 3 sc]
+  let r := model p sup before in
+  let fw := forwarded p sup before r in
+  let sc := if fw then [] else sem_cases before after in
+  match r with
+  | Some (m, f) => [(if func_eqb m after then 0 else 1)%N; wf; b2n (fst f); b2n (snd f); count 1 sc; count 2 sc; count 3 sc; b2n fw]
+  | None => [2%N; wf; 0%N; 0%N; count 1 sc; count 2 sc; count 3 sc; b2n fw]
   end.
 Definition tie_cases (cs : list (pass * list name * func * func)) : list (list N) :=
   map (fun c => tie_case (fst (fst (fst c))) (snd (fst (fst c))) (snd (fst c)) (snd c)) cs.
